@@ -7,19 +7,28 @@ package main
 // (input, observation) cases for C17_Model.
 
 import (
+	"bufio"
+	"context"
+	"encoding/json"
 	"errors"
 	"fmt"
 	"os"
+	"os/exec"
 	"path/filepath"
 	"strconv"
 	"strings"
 	"sync"
+	"time"
 	. "vh/kit"
 
 	"github.com/notaryproject/notation-go/verifbridge"
 )
 
 func main() {
+	if strings.HasPrefix(filepath.Base(os.Args[0]), concStubPrefix) {
+		concStubMain()
+		return
+	}
 	if strings.HasPrefix(filepath.Base(os.Args[0]), "notation-") {
 		stubMain()
 		return
@@ -240,55 +249,26 @@ func ctxKind(c *procCase) string {
 	return "deadline"
 }
 
-func runC17(a *Args) error {
-	rng := NewRng(a.Seed)
-	prelude := "From NV Require Import Base C17_Model.\nOpen Scope string_scope.\nOpen Scope Z_scope.\n"
-	w := NewCaseWriter(a, "C17", prelude, "case", "run")
-	w.ShardSize = 1500
-	w.Rule = "process cases: the real NewCLIPlugin + {GetMetadata, DescribeKey, GenerateSignature, GenerateEnvelope, VerifySignature} against a stub plugin process: " +
-		"stdout {valid reply, each mandatory metadata field removed / empty / null, wrong names, wrong and good contract version lists, duplicate keys, non-JSON, empty, wrong JSON types, larger than the cap, exactly the cap} x " +
-		"exit code {0, non-zero} x stderr {empty, structured error with every code, partial structured errors, incomplete, non-JSON, huge, structured error beyond / within / exactly at the cap} x " +
-		"timing {immediate, sleeping past a deadline or a cancellation, descendant holding the pipes long / briefly, both} x file {executable, not executable, missing, directory}; " +
-		"writer cases: random limits (<=0, small, 64 MiB) and write sequences against a scripted underlying writer (full, short, failing). " +
-		"non-trivial = the stub ran and (exit code != 0 or stderr non-empty or stdout is not the plain valid reply or timing/cap involved), resp. a write sequence that reaches the limit; distinct = distinct behaviour tuples"
-	w.Assumptions = []string{
-		"encoding/json decides whether stdout decodes into the framework's response type and what plugin.Error makes of stderr (oracle inputs of the model)",
-		"os/exec, the kernel's pipes and SIGKILL behave as documented (timed model of part (c)); return times are observed only as 'within min(deadline, exit) + WaitDelay + 4 s'",
-		"the stub writes its output before it sleeps or spawns the descendant, so the captured output does not depend on the moment of the kill",
-		"peak memory of the host is not measured; the cap is observed through the result (a reply or structured error that only exists beyond the cap must not be used) and through the bytes handed to the underlying writer",
-	}
-	self, err := os.Executable()
-	if err != nil {
-		return err
-	}
-	root := filepath.Join(a.Out, "proc")
-	if err := os.MkdirAll(root, 0o755); err != nil {
-		return err
-	}
-	defer os.RemoveAll(root)
-
-	// ---- process cases: generate, execute in parallel, emit in id order ----
-	pcs := genProc(rng, a.Tier)
-	var id int64
-	var todo []*procCase
+// numberProc assigns the case ids and selects the cases to execute.
+func numberProc(pcs []*procCase, only int64) (todo []*procCase, next int64) {
 	for _, c := range pcs {
-		c.ID = id
-		id++
-		if w.Want(c.ID) {
+		c.ID = next
+		next++
+		if only < 0 || only == c.ID {
 			todo = append(todo, c)
 		}
 	}
-	selfPath = self
+	return todo, next
+}
+
+// executeProc runs the selected process cases in parallel; the steps of one
+// history run in order on one instance (in replay mode the whole history up
+// to the wanted step is executed). done is called after each group.
+func executeProc(a *Args, pcs, todo []*procCase, root string, done func(steps []*procCase)) {
 	semNormal := make(chan struct{}, 8)
 	semSlow := make(chan struct{}, 96)
 	semHeavy := make(chan struct{}, 2)
 	var wg sync.WaitGroup
-	terms := map[int64]string{}
-	for _, c := range todo {
-		terms[c.ID] = c.inputTerm() // oracles, sequentially (some allocate)
-	}
-	// histories: the steps of one group run in order on one instance. In replay
-	// mode the whole history up to the wanted step is executed.
 	groups := map[int][]*procCase{}
 	for _, c := range pcs {
 		if c.Group > 0 {
@@ -306,9 +286,6 @@ func runC17(a *Args) error {
 			steps = groups[c.Group]
 			if a.Only >= 0 {
 				steps = steps[:c.Step+1]
-				for _, st := range steps {
-					st.inputTerm()
-				}
 			}
 		}
 		sem := semNormal
@@ -325,9 +302,187 @@ func runC17(a *Args) error {
 			sem <- struct{}{}
 			defer func() { <-sem }()
 			executeGroup(steps, root)
+			done(steps)
 		}(steps, sem)
 	}
 	wg.Wait()
+}
+
+type procLine struct {
+	ID      int64  `json:"id"`
+	Result  string `json:"result"`
+	ResTerm string `json:"res_term"`
+	InTime  bool   `json:"in_time"`
+	Argv    string `json:"argv"`
+	Note    string `json:"note,omitempty"`
+	Trailer bool   `json:"trailer,omitempty"`
+}
+
+// procChild: the host process of the ordinary process cases.
+func procChild(a *Args, outPath string) error {
+	self, err := os.Executable()
+	if err != nil {
+		return err
+	}
+	selfPath = self
+	pcs := genProc(NewRng(a.Seed), a.Tier)
+	todo, _ := numberProc(pcs, a.Only)
+	root := filepath.Join(a.Out, "proc")
+	if err := os.MkdirAll(root, 0o755); err != nil {
+		return err
+	}
+	defer os.RemoveAll(root)
+	f, err := os.Create(outPath)
+	if err != nil {
+		return err
+	}
+	var mu sync.Mutex
+	put := func(l *procLine) {
+		b, _ := json.Marshal(l)
+		mu.Lock()
+		f.Write(append(b, '\n'))
+		mu.Unlock()
+	}
+	executeProc(a, pcs, todo, root, func(steps []*procCase) {
+		for _, c := range steps {
+			put(&procLine{ID: c.ID, Result: c.Result, ResTerm: c.resTerm, InTime: c.InTime, Argv: c.Argv, Note: c.Note})
+		}
+	})
+	put(&procLine{Trailer: true})
+	return f.Close()
+}
+
+// runProcChild re-executes the driver for the process cases and fills in the
+// observations; it returns the cases that were observed.
+func runProcChild(a *Args, w *CaseWriter, todo []*procCase) []*procCase {
+	sub := filepath.Join(a.Out, "procchild")
+	out := filepath.Join(a.Out, "proc_child.jsonl")
+	defer os.RemoveAll(sub)
+	ctx, cancel := context.WithTimeout(context.Background(), 3*time.Hour)
+	defer cancel()
+	cmd := exec.CommandContext(ctx, selfPath, "--tier", a.Tier, "--seed", fmt.Sprint(a.Seed), "--only", fmt.Sprint(a.Only), "--out", sub, "proc-child", out)
+	cmd.WaitDelay = 5 * time.Second
+	msg, err := cmd.CombinedOutput()
+	obs := map[int64]*procLine{}
+	done := false
+	if f, e := os.Open(out); e == nil {
+		sc := bufio.NewScanner(f)
+		sc.Buffer(make([]byte, 1<<20), 1<<26)
+		for sc.Scan() {
+			var l procLine
+			if json.Unmarshal(sc.Bytes(), &l) != nil {
+				continue
+			}
+			if l.Trailer {
+				done = true
+			} else {
+				obs[l.ID] = &l
+			}
+		}
+		f.Close()
+		os.Remove(out)
+	}
+	var seen []*procCase
+	var missing []int64
+	var firstMissing *procCase
+	for _, c := range todo {
+		l := obs[c.ID]
+		if l == nil {
+			missing = append(missing, c.ID)
+			if firstMissing == nil {
+				firstMissing = c
+			}
+			continue
+		}
+		c.Result, c.resTerm, c.InTime, c.Argv, c.Note = l.Result, l.ResTerm, l.InTime, l.Argv, l.Note
+		seen = append(seen, c)
+		if strings.HasPrefix(c.Result, "ROther: panic") {
+			desc := *c
+			desc.Out, desc.Err = clip(desc.Out, 300), clip(desc.Err, 300)
+			w.ImplViolation(c.ID, "a plugin call panicked", &desc, "proc-panic")
+		}
+	}
+	if err != nil || !done || len(missing) > 0 {
+		tail := string(msg)
+		if len(tail) > 3000 {
+			tail = tail[:3000]
+		}
+		if len(missing) > 30 {
+			missing = missing[:30]
+		}
+		id := int64(concBase - 1)
+		var fm any
+		if firstMissing != nil {
+			id = firstMissing.ID
+			d := *firstMissing
+			d.Out, d.Err = clip(d.Out, 300), clip(d.Err, 300)
+			fm = &d
+		}
+		w.ImplViolation(id, "the host process making the plugin calls of the ordinary cases (in parallel) ended before it was done (fatal runtime error, panic outside a call, or timeout)",
+			map[string]any{"family": "process cases", "error": fmt.Sprint(err), "output": tail, "cases_without_result": missing, "first_case_without_result": fm}, "proc-fatal")
+	}
+	return seen
+}
+
+func runC17(a *Args) error {
+	if len(a.Extra) == 2 && a.Extra[0] == "conc-child" {
+		return concChild(a, a.Extra[1])
+	}
+	if len(a.Extra) == 2 && a.Extra[0] == "proc-child" {
+		return procChild(a, a.Extra[1])
+	}
+	rng := NewRng(a.Seed)
+	prelude := "From NV Require Import Base C17_Model.\nOpen Scope string_scope.\nOpen Scope Z_scope.\n"
+	w := NewCaseWriter(a, "C17", prelude, "case", "run")
+	w.ShardSize = 1500
+	w.Rule = "process cases: the real NewCLIPlugin + {GetMetadata, DescribeKey, GenerateSignature, GenerateEnvelope, VerifySignature} against a stub plugin process: " +
+		"stdout {valid reply, each mandatory metadata field removed / empty / null, wrong names, wrong and good contract version lists, duplicate keys, non-JSON, empty, wrong JSON types, larger than the cap, exactly the cap} x " +
+		"exit code {0, non-zero} x stderr {empty, structured error with every code, partial structured errors, incomplete, non-JSON, huge, structured error beyond / within / exactly at the cap} x " +
+		"timing {immediate, sleeping past a deadline or a cancellation, descendant holding the pipes long / briefly, both} x file {executable, not executable, missing, directory}; " +
+		"concurrency family: K goroutines in ONE re-executed host process, each making many calls of the real CLIPlugin methods (five commands, one plugin called by everybody and three others, a shared CLIPlugin per plugin or a fresh one) against plugin processes that derive reply, stderr and exit code from the specification carried in the request; reply sizes tiny / 64 KiB / 300-900 KiB / > 1 MiB, a quarter of the processes failing with their own structured error (or none), a context logger that yields between the end of the process and the decoding for 70 % of the calls; every call judged against its own process (response deeply equal to the decoding of the printed bytes; own error code, message and metadata), a sample emitted as ordinary cases, anomalies as implementation violations; " +
+		"writer cases: random limits (<=0, small, 64 MiB) and write sequences against a scripted underlying writer (full, short, failing). " +
+		"non-trivial = the stub ran and (exit code != 0 or stderr non-empty or stdout is not the plain valid reply or timing/cap involved), resp. a write sequence that reaches the limit; distinct = distinct behaviour tuples"
+	w.Assumptions = []string{
+		"encoding/json decides whether stdout decodes into the framework's response type and what plugin.Error makes of stderr (oracle inputs of the model)",
+		"os/exec, the kernel's pipes and SIGKILL behave as documented (timed model of part (c)); return times are observed only as 'within min(deadline, exit) + WaitDelay + 4 s'",
+		"the stub writes its output before it sleeps or spawns the descendant, so the captured output does not depend on the moment of the kill",
+		"concurrency family: the plugin process leaves a receipt (argv, digests of its stdin, stdout, stderr) that ties the expected reply to what was really printed; overlap is real but scheduling dependent (calls in flight are recorded per call)",
+		"peak memory of the host is not measured; the cap is observed through the result (a reply or structured error that only exists beyond the cap must not be used) and through the bytes handed to the underlying writer",
+	}
+	self, err := os.Executable()
+	if err != nil {
+		return err
+	}
+	root := filepath.Join(a.Out, "proc")
+	if err := os.MkdirAll(root, 0o755); err != nil {
+		return err
+	}
+	defer os.RemoveAll(root)
+
+	// ---- process cases: generate, execute in parallel, emit in id order ----
+	pcs := genProc(rng, a.Tier)
+	todo, id := numberProc(pcs, a.Only)
+	selfPath = self
+	terms := map[int64]string{}
+	for _, c := range todo {
+		terms[c.ID] = c.inputTerm() // oracles, sequentially (some allocate)
+	}
+	if a.Only >= 0 {
+		for _, c := range todo {
+			if c.Group > 0 {
+				for _, st := range pcs {
+					if st.Group == c.Group && st.Step <= c.Step {
+						st.inputTerm()
+					}
+				}
+			}
+		}
+	}
+	// the calls are made in a re-executed child process (they run in parallel:
+	// a fatal runtime error of the host side must be recorded, not end the driver)
+	if len(todo) > 0 {
+		todo = runProcChild(a, w, todo)
+	}
 	for _, c := range todo {
 		term := CApp("mk_case", CN(c.ID), CApp("IProc", terms[c.ID]), CApp("OProc", c.obsTerm()))
 		plainValid := c.Out == validStdout(c.Cmd, c.Name) && c.OutPA == 0 && c.OutPB == 0
@@ -379,5 +534,8 @@ func runC17(a *Args) error {
 		w.Count("family", "writer")
 		w.Count("writer_limit", map[bool]string{true: "<=0", false: ">0"}[c.Limit <= 0])
 	}
+
+	// ---- concurrency family (re-executed child process) ----
+	runConcFamily(a, w)
 	return w.Close()
 }
